@@ -75,7 +75,7 @@ def gen_rank(rnd: random.Random, rank: int, p: Dict[str, Any]) -> Dict[str, Any]
             if a < 0.7:
                 args: Dict[str, Any] = {}
                 if rnd.random() < 0.7:
-                    c = rnd.randint(0, 120) if corr_small else rnd.choice([rnd.randint(0, 120), rnd.randint(2 ** 20, 2 ** 31 - 1)])
+                    c = rnd.randint(0, 120) if corr_small else rnd.choice([rnd.randint(0, 120), rnd.randint(2 ** 20, 2 ** 31 - 1), rnd.randint(2 ** 31, 2 ** 32 - 1)])
                     side = used_corr_dev if device else used_corr_host
                     if c not in side:  # an id occurs at most once per side
                         side.add(c)
